@@ -92,6 +92,9 @@ pub struct StmtDef {
 pub struct Features {
     pub tablets_ext: bool,
     pub metadata_id_ext: bool,
+    /// Nodes that do not offer the metadata-id extension although `metadata_id_ext` is on
+    /// (a cluster in the middle of a rolling upgrade).
+    pub metadata_id_ext_except: Vec<NodeId>,
     pub lwt_ext: bool,
     pub rate_limit_ext: bool,
     pub compression: Vec<String>,
@@ -107,6 +110,7 @@ impl Default for Features {
         Features {
             tablets_ext: false,
             metadata_id_ext: false,
+            metadata_id_ext_except: Vec::new(),
             lwt_ext: false,
             rate_limit_ext: false,
             compression: vec!["lz4".into(), "snappy".into()],
@@ -550,7 +554,7 @@ fn supported_options(w: &World, conn: ConnId) -> Vec<(String, Vec<String>)> {
     if f.tablets_ext {
         o.push(("TABLETS_ROUTING_V1".into(), vec!["".into()]));
     }
-    if f.metadata_id_ext {
+    if f.metadata_id_ext && !f.metadata_id_ext_except.contains(&c.node) {
         o.push(("SCYLLA_USE_METADATA_ID".into(), vec!["".into()]));
     }
     if f.lwt_ext {
